@@ -1507,6 +1507,36 @@ func TestVerifBoundedC06(t *testing.T) {
 		}
 		c06Bounded(line)
 	}
+	// maps whose keys are told apart only by UNEXPORTED fields (the wrappers themselves, a struct with an unexported
+	// field): the characters are those fmt prints, in fmt's key order, on every run (map iteration order is random)
+	type c06KeyHid struct{ n int }
+	orderCases := 0
+	for rep := 0; rep < 12 && !h.stop(); rep++ {
+		for _, m := range []struct {
+			txt string
+			v   interface{}
+		}{
+			{"map[interface{}]int{Safe(3): 1, Safe(1): 2, Safe(2): 3, Safe(0): 4}", map[interface{}]int{Safe(3): 1, Safe(1): 2, Safe(2): 3, Safe(0): 4}},
+			{"map[c06KeyHid]int{{3}: 1, {1}: 2, {2}: 3, {0}: 4}", map[c06KeyHid]int{{3}: 1, {1}: 2, {2}: 3, {0}: 4}},
+			{"map[interface{}]int{Unsafe(\"b\"): 1, Unsafe(\"a\"): 2, Unsafe(\"c\"): 3}", map[interface{}]int{Unsafe("b"): 1, Unsafe("a"): 2, Unsafe("c"): 3}},
+		} {
+			orderCases++
+			want := c06Esc(fmt.Sprint(m.v))
+			for _, w := range []struct {
+				call string
+				out  string
+			}{
+				{"Sprint(Unsafe(" + m.txt + "))", string(Sprint(Unsafe(m.v)))},
+				{"Sprint(Safe(" + m.txt + "))", string(Sprint(Safe(m.v)))},
+			} {
+				if got := c06Strip(w.out); got != want {
+					h.fail(&h.eq, w.call, w.out, "characters differ from what fmt prints for x (keys in fmt's sorted order): want "+strconv.Quote(want))
+				}
+			}
+		}
+	}
+	c06Bounded(map[string]interface{}{"property": "C06", "law": "maps whose keys differ only in unexported fields print their keys in fmt's order under Safe()/Unsafe(), on every run",
+		"cases": orderCases, "nontrivial": orderCases, "nontrivial_rule": "all", "bound": "3 maps x 12 repetitions (map iteration order is random)", "exhaustive": false})
 	// last, because registrations cannot be undone: the wrappers are recognised before the registry is consulted,
 	// so registering the TYPES of Safe()/Unsafe() themselves changes nothing (it used to end in unbounded recursion)
 	RegisterSafeType(reflect.TypeOf(Safe(0)))
